@@ -202,18 +202,26 @@ theorem outbound_exact_plain (c : Config) (p : Packet) (d : Nat) (h : famOn c p.
 
 /-- **loopback_alone.** Application traffic on `lo` (whatever its destination) is left alone, as soon
     as a proxy identity is configured and no loopback range was explicitly included; with DNS capture
-    the guarantee covers TCP except port 53 (kept capturable on purpose for a resolver on localhost). -/
+    the guarantee covers every protocol and port except port 53 (kept capturable on purpose for a
+    resolver on localhost). -/
 theorem loopback_alone (c : Config) (p : Packet) (d : Nat) (h : famOn c p.fam = true)
     (happ : proxyOwned c p = false) (hlo : p.outIf = "lo") (hid : hasProxyIdentity c = true)
-    (hincl : c.noLoopbackIncluded = true) (hdns : c.dns = false ∨ (p.proto = .tcp ∧ p.dport ≠ 53)) :
+    (hincl : c.noLoopbackIncluded = true) (hdns : c.dns = false ∨ p.dport ≠ 53) :
     evalTable (d + 2) (rulesOf c p.fam) .nat .output p = .accept p := by
   rw [outbound_app c p d h happ]
-  have hb : loopbackBypass c p = true := by
-    unfold loopbackBypass onLo isTcp
-    rcases hdns with hd | ⟨ht, hp⟩
-    · simp [hlo, hincl, hd]
-    · simp [hlo, hincl, ht, hp]
-  simp [outboundDNSCaptured, outboundCaptured, hid, hb]
+  by_cases ht : isTcp p = true
+  · have hb : loopbackBypass c p = true := by
+      unfold loopbackBypass onLo
+      rcases hdns with hd | hp
+      · simp [hlo, hincl, hd]
+      · simp [hlo, hincl, ht, hp]
+    simp [outboundDNSCaptured, outboundCaptured, hid, hb]
+  · have hd : dnsCaptured c p = false := by
+      rcases hdns with hd | hp
+      · simp [dnsCaptured, hd]
+      · have : (p.dport == 53) = false := by simpa using hp
+        simp [dnsCaptured, this]
+    simp [outboundDNSCaptured, outboundCaptured, hd, ht]
 
 /-- The destination-based half: whatever the interface, packets for the loopback range that are not
     DNS-captured are never sent to the outbound port. -/
@@ -323,7 +331,7 @@ theorem fate_correct (c : Config) (p : Packet) (d : Nat) :
   · -- the family has no rules at all
     rcases famOn_false c p hfam with ⟨h1, h2⟩
     simp only [traverse, specFate, h1, h2, if_true, List.foldl, stepTable, evalTable_nil]
-    cases hn : (p.ctstate != CtState.new) <;> simp [hn]
+    cases hn : natConsulted p.hook p.ctstate p.inIf <;> simp [hn]
   · have hv : (p.v6 && !c.enableIPv6) = false := by
       unfold famOn at hfam
       cases hv : p.v6 <;> cases he : c.enableIPv6 <;> simp [Packet.fam, hv, he] at hfam ⊢
@@ -337,36 +345,29 @@ theorem fate_correct (c : Config) (p : Packet) (d : Nat) :
         Bool.false_and, Bool.false_eq_true, if_false, hm, mangleSpec, hh]
       rcases manglePreroutingSpec_shape c p with hs | ⟨m, cm, hs | hs⟩
       · simp [hs]
-      · have hn := nat_prerouting_correct c { p with mark := m, connmark := cm } d hfam
-        simp only [hs, Bool.or_self, Bool.false_eq_true, if_false]
-        by_cases hct : (p.ctstate != CtState.new) = true
-        · simp [hct]
-        · simp only [hct, Bool.false_eq_true, if_false]
-          rw [show rulesOf c p.fam = rulesOf c ({ p with mark := m, connmark := cm } : Packet).fam from rfl, hn]
-          simp only [natSpec, hh]
+      · simp only [hs, Bool.or_self, Bool.false_eq_true, if_false, hh]
+        by_cases hct : natConsulted Hook.prerouting p.ctstate p.inIf = true
+        · simp only [hct, Bool.not_true, Bool.and_false, Bool.false_eq_true, if_false, natSpec]
+          rw [nat_prerouting_correct' c p ({ p with hook := Hook.prerouting, mark := m, connmark := cm }) d hfam rfl]
           try rfl
-      · have hn := nat_prerouting_correct c { p with mark := m, connmark := cm } d hfam
-        simp only [hs, Bool.or_self, Bool.false_eq_true, if_false]
-        by_cases hct : (p.ctstate != CtState.new) = true
         · simp [hct]
-        · simp only [hct, Bool.false_eq_true, if_false]
-          rw [show rulesOf c p.fam = rulesOf c ({ p with mark := m, connmark := cm } : Packet).fam from rfl, hn]
-          simp only [natSpec, hh]
+      · simp only [hs, Bool.or_self, Bool.false_eq_true, if_false, hh]
+        by_cases hct : natConsulted Hook.prerouting p.ctstate p.inIf = true
+        · simp only [hct, Bool.not_true, Bool.and_false, Bool.false_eq_true, if_false, natSpec]
+          rw [nat_prerouting_correct' c p ({ p with hook := Hook.prerouting, mark := m, connmark := cm }) d hfam rfl]
           try rfl
+        · simp [hct]
     · -- OUTPUT
       have hm := mangle_output_correct c p (d + 1) hfam
       simp only [show (Table.raw == Table.nat) = false from rfl, show (Table.mangle == Table.nat) = false from rfl,
         Bool.false_and, Bool.false_eq_true, if_false, hm, mangleSpec, hh]
       rcases mangleOutputSpec_shape c p with ⟨m, hs⟩
-      have hn := nat_output_correct c { p with mark := m } d hfam
-      simp only [hs, Bool.or_self, Bool.false_eq_true, if_false]
-      by_cases hct : (p.ctstate != CtState.new) = true
-      · simp [hct]
-      · simp only [hct, Bool.false_eq_true, if_false]
-        rw [show rulesOf c p.fam = rulesOf c ({ p with mark := m } : Packet).fam from rfl, hn]
-        simp only [natSpec, hh]
+      simp only [hs, Bool.or_self, Bool.false_eq_true, if_false, hh]
+      by_cases hct : natConsulted Hook.output p.ctstate p.inIf = true
+      · simp only [hct, Bool.not_true, Bool.and_false, Bool.false_eq_true, if_false, natSpec]
+        rw [nat_output_correct' c p ({ p with hook := Hook.output, mark := m }) d hfam rfl]
         try rfl
-
+      · simp [hct]
 
 theorem natSpec_ne_loop (c : Config) (p : Packet) : natSpec c p ≠ .loop := by
   unfold natSpec natOutputSpec natPreroutingSpec
@@ -417,12 +418,18 @@ theorem natSpec_shape (c : Config) (p : Packet) :
 
 /-- In REDIRECT mode the first packet of a connection is decided by the nat table alone. -/
 theorem fate_redirect_mode (c : Config) (p : Packet) (d : Nat) (hon : famOn c p.fam = true)
-    (hmode : c.tproxy = false) (hnew : p.ctstate = .new) :
+    (hmode : c.tproxy = false) (hnew : p.ctstate = .new) (hlo : p.hook = .prerouting → p.inIf ≠ "lo") :
     traverse (d + 2) (rulesOf c p.fam) p =
       match natSpec c p with
       | .redirect port => { redirect := some port, pkt := p }
       | _ => { pkt := p } := by
   rw [fate_correct]
+  have hnc : natConsulted p.hook CtState.new p.inIf = true := by
+    unfold natConsulted
+    cases hh : p.hook
+    · have : (p.inIf == "lo") = false := by simpa using hlo hh
+      simp [this]
+    · simp
   have hv : (p.v6 && !c.enableIPv6) = false := by
     unfold famOn at hon
     cases hv : p.v6 <;> cases he : c.enableIPv6 <;> simp [Packet.fam, hv, he] at hon ⊢
@@ -431,7 +438,7 @@ theorem fate_redirect_mode (c : Config) (p : Packet) (d : Nat) (hon : famOn c p.
     cases p.hook <;> simp [hmode, hnew]
   simp only [specFate, hv, Bool.false_eq_true, if_false, List.foldl, specStep, Bool.or_self,
     show (Table.raw == Table.nat) = false from rfl, show (Table.mangle == Table.nat) = false from rfl,
-    Bool.false_and, hm, hnew, beq_self_eq_true, Bool.true_and, bne_self_eq_false]
+    Bool.false_and, hm, hnew, beq_self_eq_true, Bool.true_and, bne_self_eq_false, hnc, Bool.not_true]
   rcases natSpec_shape c p with h | ⟨port, h⟩ <;> simp [h]
 
 /-- outbound_exact for the whole hook. -/
@@ -440,7 +447,7 @@ theorem outbound_exact_fate (c : Config) (p : Packet) (d : Nat) (hon : famOn c p
     (happ : proxyOwned c p = false) (hdns : dnsCaptured c p = false) :
     traverse (d + 2) (rulesOf c p.fam) p =
       if outboundCaptured c p then { redirect := some c.proxyPort, pkt := p } else { pkt := p } := by
-  rw [fate_redirect_mode c p d hon hmode hnew]
+  rw [fate_redirect_mode c p d hon hmode hnew (by simp [hh])]
   have h1 := outbound_app c p d hon happ
   rw [nat_output_correct c p d hon] at h1
   have h2 : outboundDNSCaptured c p = false := by simp [outboundDNSCaptured, hdns]
@@ -453,19 +460,21 @@ theorem no_loop_fate (c : Config) (p : Packet) (d : Nat) (hon : famOn c p.fam = 
     (ho : proxyOwned c p = true) (hp : c.proxyPort ≠ c.inboundCapturePort) :
     (traverse (d + 2) (rulesOf c p.fam) p).redirect ≠ some c.proxyPort ∧
     (traverse (d + 2) (rulesOf c p.fam) p).dropped = false := by
-  rw [fate_redirect_mode c p d hon hmode hnew]
+  rw [fate_redirect_mode c p d hon hmode hnew (by simp [hh])]
   have h1 := no_loop c p d hon ho
   rw [nat_output_correct c p d hon] at h1
   simp only [natSpec, hh]
   rcases h1 with h1 | ⟨h1, _⟩ <;> simp [h1]
   exact fun e => hp e.symm
 
-/-- inbound_exact for the whole hook. -/
+/-- inbound_exact for the whole hook: packets arriving on a real interface (for `lo` see
+    `lo_reentry_never_redirected`: nat/PREROUTING is not consulted for them). -/
 theorem inbound_exact_fate (c : Config) (p : Packet) (d : Nat) (hon : famOn c p.fam = true)
-    (hmode : c.tproxy = false) (hnew : p.ctstate = .new) (hh : p.hook = .prerouting) (hkv : kubeVirt c p = false) :
+    (hmode : c.tproxy = false) (hnew : p.ctstate = .new) (hh : p.hook = .prerouting) (hkv : kubeVirt c p = false)
+    (hlo : p.inIf ≠ "lo") :
     traverse (d + 2) (rulesOf c p.fam) p =
       if inboundCaptured c p then { redirect := some c.inboundCapturePort, pkt := p } else { pkt := p } := by
-  rw [fate_redirect_mode c p d hon hmode hnew]
+  rw [fate_redirect_mode c p d hon hmode hnew (fun _ => hlo)]
   simp only [natSpec, hh, natPreroutingSpec, hkv, hmode, Bool.false_eq_true, if_false, Bool.not_false, Bool.true_and]
   by_cases hc : inboundCaptured c p = true <;> simp [hc]
 
@@ -482,8 +491,209 @@ theorem non_new_untouched (c : Config) (p : Packet) (d : Nat) (hmode : c.tproxy 
       unfold mangleSpec mangleOutputSpec manglePreroutingSpec
       rcases hct with h | h <;> cases p.hook <;> simp [hmode, h]
     rcases hct with h | h <;>
-      simp [List.foldl, specStep, hm, h, show (Table.raw == Table.nat) = false from rfl,
+      simp [List.foldl, specStep, hm, h, natConsulted, show (Table.raw == Table.nat) = false from rfl,
         show (Table.mangle == Table.nat) = false from rfl]
+
+/-! ## Across hooks: traffic on `lo` -/
+
+/-- Shape of the whole-hook policy at PREROUTING for a packet arriving on `lo`: nat is not consulted,
+    so the fate is what mangle decides. -/
+theorem specFate_lo_prerouting (c : Config) (p : Packet) (hh : p.hook = .prerouting) (hlo : p.inIf = "lo")
+    (hv : (p.v6 && !c.enableIPv6) = false) :
+    specFate c p =
+      match manglePreroutingSpec c p with
+      | .accept q => { pkt := q }
+      | .drop => { dropped := true, pkt := p }
+      | .tproxy port q => { tproxy := some port, pkt := q }
+      | .redirect port => { redirect := some port, pkt := p }
+      | .loop => { loop := true, pkt := p } := by
+  simp only [specFate, hv, Bool.false_eq_true, if_false, List.foldl, specStep, Bool.or_self,
+    show (Table.raw == Table.nat) = false from rfl, show (Table.mangle == Table.nat) = false from rfl,
+    Bool.false_and, mangleSpec, hh]
+  rcases manglePreroutingSpec_shape c p with hs | ⟨m, cm, hs | hs⟩
+  · simp [hs]
+  · simp [hs, natConsulted, hlo, hh]
+  · simp [hs, natConsulted, hlo, hh]
+
+/-- **A packet arriving on `lo` is never redirected** (any mode, any configuration): its connection got
+    its NAT binding at nat/OUTPUT, nat/PREROUTING is not consulted. In particular traffic the proxy
+    delivers to the application over `lo`, and the application's own loopback traffic, are not captured a
+    second time in REDIRECT mode. -/
+theorem lo_reentry_never_redirected (c : Config) (p : Packet) (d : Nat)
+    (hh : p.hook = .prerouting) (hlo : p.inIf = "lo") :
+    (traverse (d + 2) (rulesOf c p.fam) p).redirect = none := by
+  rw [fate_correct]
+  by_cases hv : (p.v6 && !c.enableIPv6) = true
+  · simp [specFate, hv]
+  · have hv' : (p.v6 && !c.enableIPv6) = false := by simpa using hv
+    rw [specFate_lo_prerouting c p hh hlo hv']
+    rcases manglePreroutingSpec_shape c p with hs | ⟨m, cm, hs | hs⟩ <;> simp [hs]
+
+/-- In REDIRECT mode a packet arriving on `lo` is left completely alone (drop-invalid aside). -/
+theorem lo_reentry_untouched_redirect_mode (c : Config) (p : Packet) (d : Nat)
+    (hh : p.hook = .prerouting) (hlo : p.inIf = "lo") (hmode : c.tproxy = false)
+    (hinv : ¬(c.dropInvalid = true ∧ p.ctstate = .invalid)) :
+    traverse (d + 2) (rulesOf c p.fam) p = { pkt := p } := by
+  rw [fate_correct]
+  by_cases hv : (p.v6 && !c.enableIPv6) = true
+  · simp [specFate, hv]
+  · have hv' : (p.v6 && !c.enableIPv6) = false := by simpa using hv
+    rw [specFate_lo_prerouting c p hh hlo hv']
+    have : manglePreroutingSpec c p = .accept p := by
+      unfold manglePreroutingSpec
+      by_cases h1 : c.dropInvalid = true <;> by_cases h2 : p.ctstate = .invalid <;> simp_all
+    simp [this]
+
+/-- **tproxy_lo_bypass** (TPROXY mode): a packet arriving on `lo` that comes from the proxy's passthrough
+    source 127.0.0.6 / ::6, or that does not carry the proxy's self-call mark 1338, is never handed to
+    TPROXY and keeps its mark. -/
+theorem tproxy_lo_bypass (c : Config) (p : Packet) (d : Nat) (h : famOn c p.fam = true)
+    (hlo : p.inIf = "lo")
+    (hby : (if p.v6 then src6 else src4).contains p.src = true ∨ p.mark ≠ outboundMark) :
+    evalTable (d + 2) (rulesOf c p.fam) .mangle .prerouting p = .drop ∨
+    ∃ q, evalTable (d + 2) (rulesOf c p.fam) .mangle .prerouting p = .accept q ∧ q.mark = p.mark := by
+  rw [mangle_prerouting_correct c p d h]
+  unfold manglePreroutingSpec
+  have hb : tproxyBypass c p = true := by
+    rcases hby with hs | hm
+    · simp [tproxyBypass, inLo, hlo, hs]
+    · have : (p.mark != outboundMark) = true := by simpa using hm
+      simp [tproxyBypass, inLo, hlo, this]
+  simp only [hb, Bool.not_true, Bool.false_eq_true, if_false, Bool.and_false, Bool.false_and]
+  split
+  · exact Or.inr ⟨p, rfl, rfl⟩
+  · split
+    · exact Or.inl rfl
+    · right
+      split
+      · exact ⟨p, rfl, rfl⟩
+      · split <;> exact ⟨_, rfl, rfl⟩
+
+/-- After the OUTPUT hook a packet carries the self-call mark 1338 only if it is the proxy's own TCP
+    call-to-self on `lo` (to a non-loopback address), or it had that mark before, or the configured
+    TPROXY mark is itself 1338. -/
+theorem output_mark_1338 (c : Config) (p q : Packet) (h : mangleOutputSpec c p = .accept q)
+    (hq : q.mark = outboundMark) :
+    (proxyOwned c p = true ∧ p.proto = .tcp ∧ p.outIf = "lo" ∧ loopbackDst c p = false) ∨
+    p.mark = outboundMark ∨ c.tproxyMark = outboundMark := by
+  unfold mangleOutputSpec at h
+  split at h
+  · injection h with h; subst h; exact Or.inr (Or.inl hq)
+  · split at h
+    · injection h with h; subst h; exact Or.inr (Or.inl hq)
+    · injection h with h
+      subst h
+      simp only at hq
+      split at hq
+      · rename_i hc
+        simp only [Bool.and_eq_true, beq_iff_eq] at hc
+        exact Or.inr (Or.inr (hc.2 ▸ hq))
+      · split at hq
+        · rename_i hs
+          simp only [Bool.and_eq_true, Bool.not_eq_true', isTcp, onLo, beq_iff_eq] at hs
+          exact Or.inl ⟨hs.2, hs.1.1.1, hs.1.1.2, hs.1.2⟩
+        · exact Or.inr (Or.inl hq)
+
+
+/-- The packet that leaves the OUTPUT hook: same family, and marked 1338 only for the reasons of
+    `output_mark_1338`. -/
+theorem output_fate_pkt (c : Config) (p : Packet) (hh : p.hook = .output) :
+    (specFate c p).pkt.v6 = p.v6 ∧
+    ((specFate c p).pkt.mark = outboundMark →
+      (proxyOwned c p = true ∧ p.proto = .tcp ∧ p.outIf = "lo" ∧ loopbackDst c p = false) ∨
+      p.mark = outboundMark ∨ c.tproxyMark = outboundMark) := by
+  by_cases hv : (p.v6 && !c.enableIPv6) = true
+  · have key : (specFate c p).pkt = p := by simp [specFate, hv]
+    rw [key]
+    exact ⟨rfl, fun h => Or.inr (Or.inl h)⟩
+  · have hv' : (p.v6 && !c.enableIPv6) = false := by simpa using hv
+    rcases mangleOutputSpec_shape c p with ⟨m, hs⟩
+    have key : (specFate c p).pkt = { p with mark := m } := by
+      simp only [specFate, hv', Bool.false_eq_true, if_false, List.foldl, specStep, Bool.or_self,
+        show (Table.raw == Table.nat) = false from rfl, show (Table.mangle == Table.nat) = false from rfl,
+        Bool.false_and, mangleSpec, hh, hs, beq_self_eq_true, Bool.true_and]
+      split
+      · rfl
+      · rcases natSpec_shape c { p with hook := Hook.output, mark := m } with h | ⟨port, h⟩ <;> simp [h]
+    rw [key]
+    exact ⟨rfl, fun h => output_mark_1338 c p _ hs h⟩
+
+/-- At PREROUTING on `lo`, only a packet carrying the self-call mark 1338 can be handed to TPROXY. -/
+theorem mangle_lo_tproxy_needs_1338 (c : Config) (p : Packet) (hlo : p.inIf = "lo") (port : Nat) (q : Packet)
+    (h : manglePreroutingSpec c p = .tproxy port q) : c.tproxy = true ∧ p.mark = outboundMark := by
+  by_cases hm : p.mark = outboundMark
+  · refine ⟨?_, hm⟩
+    unfold manglePreroutingSpec at h
+    cases ht : c.tproxy
+    · simp only [ht, Bool.false_and, Bool.false_eq_true, if_false, Bool.not_false, if_true] at h
+      split at h <;> simp at h
+    · rfl
+  · exfalso
+    have hb : tproxyBypass c p = true := by
+      have : (p.mark != outboundMark) = true := by simpa using hm
+      simp [tproxyBypass, inLo, hlo, this]
+    unfold manglePreroutingSpec at h
+    simp only [hb, Bool.not_true, Bool.false_eq_true, if_false, Bool.and_false, Bool.false_and] at h
+    repeat' split at h
+    all_goals simp at h
+
+/-- **never loop, across hooks.** Take ANY packet sent at the OUTPUT hook and follow it when it comes
+    back in through `lo` (whatever REDIRECT did to its destination at OUTPUT). At the second hook it is
+    never redirected; in REDIRECT mode it is never captured at all; in TPROXY mode it can be handed to
+    TPROXY only if it is the proxy's own TCP call-to-self on `lo` to a non-loopback address (the documented
+    appN -> Envoy -> Envoy -> appN path, marked 1338 by mangle/OUTPUT) - never for application traffic,
+    unless the sender itself had put mark 1338 on it or the TPROXY mark is configured to 1338. -/
+theorem lo_journey_never_loops (c : Config) (p : Packet) (d : Nat) (dst' : Nat) (hh : p.hook = .output) :
+    match (loJourney (d + 2) (rulesOf c p.fam) p dst').2 with
+    | none => True
+    | some f2 =>
+      f2.redirect = none ∧ (c.tproxy = false → f2.tproxy = none) ∧
+      (f2.tproxy ≠ none →
+        (proxyOwned c p = true ∧ p.proto = .tcp ∧ p.outIf = "lo" ∧ loopbackDst c p = false) ∨
+        p.mark = outboundMark ∨ c.tproxyMark = outboundMark) := by
+  unfold loJourney
+  simp only
+  split
+  · trivial
+  · rename_i f2 hf2
+    split at hf2
+    · simp at hf2
+    · injection hf2 with hf2
+      rw [fate_correct] at hf2
+      rcases output_fate_pkt c p hh with ⟨hv6, hmark⟩
+      generalize hp2 : reenterLo (specFate c p) dst' = p2 at hf2
+      have h2h : p2.hook = .prerouting := by rw [← hp2]; rfl
+      have h2lo : p2.inIf = "lo" := by rw [← hp2]; rfl
+      have h2m : p2.mark = (specFate c p).pkt.mark := by rw [← hp2]; rfl
+      have h2f : p2.fam = p.fam := by
+        have : p2.v6 = (specFate c p).pkt.v6 := by rw [← hp2]; rfl
+        simp [Packet.fam, this, hv6]
+      rw [← h2f] at hf2
+      subst hf2
+      refine ⟨lo_reentry_never_redirected c p2 d h2h h2lo, ?_, ?_⟩
+      · intro hmode
+        rw [fate_correct]
+        by_cases hv : (p2.v6 && !c.enableIPv6) = true
+        · simp [specFate, hv]
+        · have hv' : (p2.v6 && !c.enableIPv6) = false := by simpa using hv
+          rw [specFate_lo_prerouting c p2 h2h h2lo hv']
+          rcases manglePreroutingSpec_shape c p2 with hs | ⟨m, cm, hs | hs⟩
+          · simp [hs]
+          · simp [hs]
+          · have := (mangle_lo_tproxy_needs_1338 c p2 h2lo _ _ hs).1
+            simp [hmode] at this
+      · intro htp
+        apply hmark
+        rw [← h2m]
+        rw [fate_correct] at htp
+        by_cases hv : (p2.v6 && !c.enableIPv6) = true
+        · simp [specFate, hv] at htp
+        · have hv' : (p2.v6 && !c.enableIPv6) = false := by simpa using hv
+          rw [specFate_lo_prerouting c p2 h2h h2lo hv'] at htp
+          rcases manglePreroutingSpec_shape c p2 with hs | ⟨m, cm, hs | hs⟩
+          · simp [hs] at htp
+          · simp [hs] at htp
+          · exact (mangle_lo_tproxy_needs_1338 c p2 h2lo _ _ hs).2
 
 /-! ## DNS: the agent's own TCP DNS -/
 
